@@ -69,6 +69,9 @@ func c02Payload(first string, n int) ([]byte, int) {
 		d := elem[1]
 		zz.Assume(!(d >= 0xc7 && d <= 0xc9) && !(d >= 0xd4 && d <= 0xd8))
 		zz.Assume(d != 0xc5 && d != 0xc6 && d != 0xda && d != 0xdb && !(d >= 0xdc && d <= 0xdf))
+		// a map element whose key is not a fixstr: the generic decoder builds
+		// map[interface{}]interface{} through reflection (not encoded)
+		zz.Assume(!(c >= 0x81 && c <= 0x8f && !(d >= 0xa0 && d <= 0xbf)))
 	}
 	b = append(b, elem...)
 	return b, rows
